@@ -432,3 +432,42 @@ PROPS["C20"] = {
          "thorough": {"checks": 30000, "shards": 12, "timeout": 1700}},
     ],
 }
+
+
+# ---------------------------------------------------------------------------------------------------------------
+# Amendments to the texts above after the second implementation session (kept as replacements on the evaluated strings
+# so that each one fails loudly if the original sentence is edited).
+def _amend(pid, field, old, new):
+    cur = PROPS[pid][field]
+    assert cur.count(old) == 1, (pid, field, old[:50])
+    PROPS[pid][field] = cur.replace(old, new)
+
+
+_amend("C02", "level_text", "Generated blocks biased towards several staking/voting transactions on the same tallies and voting-power buckets, over all hardfork versions",
+       "Generated blocks biased towards several staking/voting transactions on the same tallies and voting-power buckets (in half of the cases with a tie bias: equal stakes, votes on one issue for values that are one number spelt differently, so that distinct candidates tie), with contract calls that fail at run time or die with a VM system error after writing state (rejected: the producer leaves them out), over all hardfork versions")
+_amend("C02", "level_text", "(3 quick, 8 thorough; thorough also varies GOMAXPROCS and runs under the race detector)",
+       "(3 quick, 8 thorough; thorough also varies GOMAXPROCS and runs under the race detector, whose reports are judged when they touch execution code, see DESIGN.md 10.1)")
+_amend("C07", "technique", "+ differential against a reference node fed only the winning branch",
+       "+ differential against a reference node fed only the winning branch; plus the multi-node real-DPoS schedule simulation of C08 judged for fork choice around the irreversible block")
+_amend("C07", "level_text", "at the end the full state dump and the active system parameters equal those of a fresh node that only executed the winning branch.",
+       "at the end the full state dump and the active system parameters equal those of a fresh node that only executed the winning branch. Invalid kinds include header numbers that skip ahead or fall back. DPoS unit: in the C08 simulation (real DPoS status, a misbehaving producer growing a private branch while the others fall silent) no node may leave unadopted a completely stored branch that is strictly longer than its main chain and forks at or above its irreversible block.")
+_amend("C07", "level_note", "The DPoS below-LIB veto is checked in C08 with the real DPoS status.",
+       "The refusal of forks BELOW the irreversible block is C08's; the adoption of forks AT or above it is judged here in the DPoS unit (blocks are empty there, so only the best block is compared).")
+_amend("C08", "level_text", "skips, or (n = 4 only, one faulty producer) also signs a second block on another parent; each block reaches",
+       "skips, or (n = 4 only, one faulty producer) also signs a second block on another parent and later keeps extending that private branch in its own slots; in attack runs the correct producers fall silent a drawn number of slots after the fork (in \"precise\" attacks they all produce and deliver at once until then, and the run is prolonged to up to 90 slots) so that the private branch outgrows the main chain with the irreversible block just below, at or above the fork point; each block reaches")
+_amend("C08", "level_text", "is followed up to the tip by blocks of at least 2n/3+1 distinct producers,",
+       "is, at the moment it advances, followed up to the tip by blocks of at least 2n/3+1 distinct producers,")
+_amend("C08", "level_text", "after a restart the restored LIB equals the one reported before.",
+       "after a restart the restored LIB equals the one reported before. A scripted regression replays the history that exposed the stale pre-LIB proposals (fixed).")
+_amend("C13", "level_text", "removals, blocks built from the pool's own offer or from outside transactions, and real reorganisations of depth 1-3 of the node;",
+       "removals, evictions of accounts made to look idle (any subset, with or without held-aside transactions), blocks built from the pool's own offer or from outside transactions, and real reorganisations of depth 1-3 of the node;")
+_amend("C13", "level_text", "and each submission is accepted iff its nonce is above the state nonce and neither the nonce slot nor the hash is taken.",
+       "and each submission is accepted iff its nonce is above the state nonce and neither the nonce slot nor the hash is taken; an eviction takes or leaves an idle account as a whole and touches no other. Concurrent unit: 2-6 goroutines submit / remove / query while one more fetches from the pool, produces and connects 0-3 blocks on the node and hands the pool the notifications; all invariants must hold at quiescence, and in the thorough tier the race detector must report nothing in pool code.")
+_amend("C13", "level_note", "Eviction by age uses the wall clock and is exercised only in the thorough tier with a shimmed period.",
+       "Eviction by age uses the wall clock: idleness is fabricated by back-dating an account's list (shim), and since the eviction run gives up after 4 ms the oracle does not demand that an idle account is gone. Race reports outside pool code (third-party actor mailbox) are set aside by the driver.")
+_amend("C17", "technique", "late, never, stale-session answers); history invariants",
+       "late, never, stale-session answers; a loss-only mode where requests are only lost or delayed); history invariants")
+_amend("C17", "level_text", "the session ends (within 25 s) not running, success implies the target height, a run with only delays / stale answers must succeed, and a second fault-free session reaches the remote tip.",
+       "the session ends — it is a stall when the syncer is still running and has sent no request for 8 s — not running, success implies the target height, a run with only delays / stale answers must succeed (unless it ended on one of the syncer's own response timers), and a second fault-free session reaches the remote tip.")
+_amend("C17", "level_note", "A run that does not end within 25 s is reported as a violation only because the unchanged tree never needed more than 3 s in 50 000 runs; set VERIF_C17_DEADLINE to change it.",
+       "Stall detection is progress-based (a live session re-sends a lost block request every 250 ms and the harness releases delayed answers as soon as the syncer goes quiet); a session still exchanging messages after 90 s is skipped, not judged. The hash fetcher keeps its production timer (shortened only when a hash answer is made invalid, which it notices by timing out).")
